@@ -6,11 +6,13 @@ import HdVerif.Generated.T7a
 import HdVerif.Generated.T7b
 import HdVerif.Generated.T7c
 import HdVerif.Generated.T7d
+import HdVerif.Generated.T7e
 /-! C04 / C12: tiled images.
 
 Everything integer is taken from the definitions the translator regenerates from /repo
 (`Gen.stdRowColIndices` T3, `Gen.tiledRegion` T5, `Gen.tileArrayBounds` T6, `Gen.tilesPerAxisCeil` T7a,
-`Gen.tilesPerAxisFloor` T7b, `Gen.planePositionOffsets` T7c, `Gen.tfInit/tfMaxStep/tfRanges/tfMatchStep` T7d);
+`Gen.tilesPerAxisFloor` T7b, `Gen.planePositionOffsets` T7c, `Gen.tfInit/tfMaxStep/tfRanges/tfMatchStep` T7d,
+`Gen.tiledFullZOffset` T7e);
 the loops around them (SQL selection as a list filter, the copy loop of `_get_pixels_by_frame`, the
 enumerations, the tiling loop of the Segmentation constructor) are written by hand here and tied to the
 code by the correspondence.
@@ -223,9 +225,12 @@ def iterTiledFull (channels : List (Option Int)) (planes : Int) (tr tc R C : Int
       match acc with
       | .error e => .error e
       | .ok rest =>
-        match tilePositions tr tc R C { g with oz := ((chp.2 - 1 : Int) : Rat) * sbs } with
+        match tiledFullZOffset chp.2 sbs with
         | .error e => .error e
-        | .ok ps => .ok (ps.map (fun p => (chp.1, chp.2, p.1.1, p.1.2, p.2.1, p.2.2.1, p.2.2.2)) ++ rest))
+        | .ok zoff =>
+          match tilePositions tr tc R C { g with oz := zoff } with
+          | .error e => .error e
+          | .ok ps => .ok (ps.map (fun p => (chp.1, chp.2, p.1.1, p.1.2, p.2.1, p.2.2.1, p.2.2.2)) ++ rest))
     (.ok [])
 
 /-- `utils.compute_plane_position_tiled_full`: (column position, row position, x, y, z) of the tile with 1-based
